@@ -286,6 +286,7 @@ def evalOp (op input : String) : Option String :=
         some (if lo ≤ (d : Int) ∧ (d : Int) ≤ hi then "in" else s!"out({d})")
       | some d, _ => some s!"out({d})"
     | _ => none
+  | "srvtracedbg" => (parseList parseSrvObs ";" input).map (fun l => SrvReplay.debugGreedy (l.length + 1) ServerConn.init l 0)
   | "srvtrace" => (parseList parseSrvObs ";" input).map SrvReplay.verdict
   | "muxtrace" => match input.splitOn "|" with
     | [n, evs] => (parseList parseMuxObs ";" evs).map (fun l => MuxReplay.verdict l n.toNat?)
